@@ -1330,13 +1330,14 @@ mod c19 {
     // @sym machine (literal per case), port (even, not an AY address), data, a second write to any odd port; frame time fixed (1000)
     // @assert an OUT to the ULA port latches speaker = bit 4 and MIC = bit 3 of the data before the next mixer step of that very port cycle, so samples generated from then on carry the new level
     // @bound one port write
-    // @stub ZXMixer::process -> no-op (its effect is c19_mixer_step_*); ZXController::frame_pos -> constant (only the stubbed mixer step consumes it); ZXScreen::process_clocks -> no-op
+    // @stub ZXMixer::process -> no-op (its effect is c19_mixer_step_*); ZXController::frame_pos -> constant (only the stubbed mixer step consumes it); ZXMixer::new_frame -> no-op (c19_frame_end_pads_to_full_frame); ZXScreen::process_clocks -> no-op
     // @replay solver-only
     #[kani::proof]
     #[kani::unwind(10)]
     #[kani::stub(crate::zx::video::screen::ZXScreen::process_clocks, noop_screen_clocks)]
     #[kani::stub(crate::zx::sound::mixer::ZXMixer::process, mh::noop_process)]
     #[kani::stub(ZXController::frame_pos, half_frame_pos)]
+    #[kani::stub(crate::zx::sound::mixer::ZXMixer::new_frame, mh::noop_new_frame)]
     fn c19_port_write_sets_beeper_level() {
         // machine and frame time literal: with a symbolic clock every bus wait carries a symbolic f64
         // division (frame position for the mixer) - port timing is C04's subject
